@@ -83,6 +83,8 @@ type Path struct {
 	viols     []Violation
 	outcome   string
 	violated  bool
+	curFn     *ssa.Function // innermost function / instruction being executed (diagnostics)
+	curIns    ssa.Instruction
 	unsupMsg  string
 	pcInfeasible bool
 	harness   string
@@ -485,6 +487,9 @@ func (e *Engine) runPath(harness *ssa.Function, prefix []int, sol *Solver) (p *P
 			case unsupported:
 				p.outcome = "unsupported"
 				p.unsupMsg = x.msg
+				if p.curFn != nil && os.Getenv("SYMGO_WHERE") != "" {
+					fmt.Fprintf(os.Stderr, "unsupported: %s @ %s: %v (%s)\n", x.msg, p.curFn, p.curIns, p.eng.prog.Fset.Position(p.curIns.Pos()))
+				}
 			case pathAbort:
 				p.outcome = x.kind
 				if x.kind == "done" && p.violated {
